@@ -30,7 +30,7 @@ HOOKS = {
     'ska_ref/idx_check.rs': 'idx_check',
 }
 
-DEFAULT_CAPS = {'MCAP': 4, 'SCAP': 3, 'ACAP': 6}
+DEFAULT_CAPS = {'MCAP': 4, 'SCAP': 3, 'RCAP': 3, 'CCAP': 3}
 
 # Environment stubs: one guarded early-return line inserted at the top of the body of I/O functions,
 # in the overlay copy only, active only when a harness switches it on (identical under Kani and in the
@@ -44,6 +44,8 @@ ENV_STUBS = [
      '        #[cfg(kani)] if crate::verif_support::rec_distance_active() { crate::verif_support::record_distance(constant, self.variants.nrows()); return Vec::new(); }\n'),
     ('ska_dict.rs', r'        proportion_reads: Option<f64>,\n    \) -> Self \{\n',
      '        #[cfg(kani)] if crate::verif_support::dict_provider_active() { let mut d = Self { k, rc, sample_idx, name: name.to_string(), split_kmers: HashMap::default(), kmer_filter: KmerFilter::default() }; let (pk, pb) = crate::verif_support::provided_entry(sample_idx); d.split_kmers.insert(<IntT as num_traits::NumCast>::from(pk).unwrap(), pb); return d; }\n'),
+    ('merge_ska_array.rs', r'fn update_counts\(&mut self, filter_ambig_as_missing: bool\) \{\n',
+     '        #[cfg(kani)] if !filter_ambig_as_missing && crate::verif_support::counts_exact_lemma_active() { return; }\n'),
     ('ska_ref/aln_writer.rs', r'pub fn write_split_kmer\(&mut self, mapped_pos: usize, mapped_chrom: usize, base: u8\) \{\n',
      '        #[cfg(kani)] if crate::verif_support::writer_stub_active() { return; }\n'),
     ('ska_ref/aln_writer.rs', r'pub fn finalise\(&mut self\) \{\n',
